@@ -18,7 +18,11 @@ Patterns == { PAnd(<<I("a")>>), PAnd(<<T("a", 1, 2)>>), PAnd(<<T("a", 2, 2)>>), 
               PAnd(<<PNot(I("a")), I("a")>>), PAnd(<<PICap("i"), PICap("i")>>),
               PAnd(<<WithTimes(POr(<<I("a"), I("b")>>), 2, 3)>>), PAnd(<<I("a"), PNot(I("c")), I("a")>>),
               PAnd(<<T("a", 1, 3), I("a")>>), PAnd(<<T("a", 0, 2), I("a"), I("b")>>),
-              PAnd(<<WithTimes(POr(<<I("a"), I("b")>>), 1, 2), I("b")>>) }
+              PAnd(<<WithTimes(POr(<<I("a"), I("b")>>), 1, 2), I("b")>>),
+              \* optional groups whose members are real words (absent from the listings below)
+              PAnd(<<WithTimes(PAnd(<<I("inc"), I("xchg")>>), 0, 1), I("a"), I("b")>>),
+              PAnd(<<I("a"), WithTimes(POr(<<PAnd(<<I("inc"), I("b")>>), I("inc")>>), 0, 2), I("a")>>),
+              PAnd(<<WithTimes(PPerm(<<I("inc"), I("xchg")>>), 0, 1), I("a")>>) }
 ASSUME \A P \in Patterns : ~Nullable(P)
 Bodies == { <<m, <<>> >> : m \in {"a", "b", "c"} }
 Listings == ListingsOver(Bodies, 0, MaxListing)
